@@ -10,7 +10,7 @@ import os, random, re, shutil, tempfile, glob
 from .. import impl, coqrun, sheetcases as SC
 from ..gens import sheet as S
 
-FEATURES = 'media,amp,keyframes,fontface,stmt,str,rstr,istr,url,attr,pseudo2,var,mixin'.split(',')
+FEATURES = 'media,amp,keyframes,fontface,stmt,str,rstr,istr,url,attr,pseudo2,pseudofn,var,mixin'.split(',')
 RULE = ('(a) raw and filtered token streams of the model lexer vs the real lexer; (b) base program vs 3 variants differing only in whitespace-run content, '
         'comments at statement boundaries and last semicolons, all %d option vectors sampled; (c) corpus files vs variants built from the real lexer token positions; '
         'distinct = distinct (program, layout); non-trivial = the variant has a newline-only or CRLF run inside a selector/value, a comment whose body contains ; { } quotes or //, '
